@@ -172,7 +172,8 @@ Definition path_clauses (a : acct) (to : Z) (amt : coins) (path : string) : list
 (* the log kept along a history (the checker's own record, built from accepted messages): approvals and
    declines by listed custodians (from, target, lower-case hash), transfers whose password was confirmed
    with the matching password, and the accounts that came into being by address rotation *)
-Record log := mkLog { l_appr : list (Z * Z * string); l_decl : list (Z * Z * string); l_conf : list (Z * string); l_rot : list Z }.
+Record log := mkLog { l_appr : list (Z * Z * string); l_decl : list (Z * Z * string); l_conf : list (Z * string); l_rot : list Z;
+                      l_req : list (Z * string) }.   (* transfers requested while the account's password switch was on *)
 Definition in3 (f t : Z) (h : string) (l : list (Z * Z * string)) : bool :=
   existsb (fun e => match e with (f', t', h') => (f =? f') && (t =? t') && String.eqb h h' end) l.
 Definition in2 (t : Z) (h : string) (l : list (Z * string)) : bool :=
@@ -206,7 +207,12 @@ Definition release_clauses (lg : log) (pre : state) (t : Z) (h : string) (tx : t
        [cl3 "threshold" kind (if votes_now * 100 <? mode * n_cust T then "undercount" else "nongenuine")]
      else []
    else []) ++
-  (if flag s_pwd T && negb (in2 t h (l_conf lg)) then [cl3 "password" kind (if t_conf tx then "unconfirmed" else "flag_unset")] else []) ++
+  (* the password: required when the switch is on now, or was on when the transfer was requested (and the owner
+     did not redefine the settings since); judged from the checker's record of accepted confirmations only *)
+  (if negb (in2 t h (l_conf lg)) then
+     if flag s_pwd T then [cl3 "password" kind (if t_conf tx then "unconfirmed" else "flag_unset")]
+     else if in2 t h (l_req lg) then [cl3 "password" kind "requirement_dropped"] else []
+   else []) ++
   wl_lim_clauses T (t_to tx) (t_amt tx) "custody_send".
 
 (* a vote was recorded in this step (the vote store grew) *)
@@ -284,7 +290,7 @@ Definition op_clauses (n : nat) (lg : log) (a0 pre post : state) (o : op) : list
       let isc := is_custodian T f in
       let dup := in3 f t h (l_appr lg) || in3 f t h (l_decl lg) in
       let vt := voted pre post in
-      let lg1 := if isc && negb dup && vt then mkLog ((f, t, h) :: l_appr lg) (l_decl lg) (l_conf lg) (l_rot lg) else lg in
+      let lg1 := if isc && negb dup && vt then mkLog ((f, t, h) :: l_appr lg) (l_decl lg) (l_conf lg) (l_rot lg) (l_req lg) else lg in
       ((if negb isc && negb (state_eqb n pre post) then [cl "only_custodians" kind] else []) ++
        (if isc && dup && vt then [cl "vote_once" kind] else []) ++
        (if paid_without_release pre post t h then [cl "payout_without_release" kind] else []) ++
@@ -300,7 +306,7 @@ Definition op_clauses (n : nat) (lg : log) (a0 pre post : state) (o : op) : list
       let isc := is_custodian T f in
       let dup := in3 f t h (l_appr lg) || in3 f t h (l_decl lg) in
       let vt := voted pre post in
-      let lg1 := if isc && negb dup && vt then mkLog (l_appr lg) ((f, t, h) :: l_decl lg) (l_conf lg) (l_rot lg) else lg in
+      let lg1 := if isc && negb dup && vt then mkLog (l_appr lg) ((f, t, h) :: l_decl lg) (l_conf lg) (l_rot lg) (l_req lg) else lg in
       ((if negb isc && negb (state_eqb n pre post) then [cl "only_custodians" kind] else []) ++
        (if isc && dup && vt then [cl "vote_once" kind] else []) ++
        (if paid_without_release pre post t h then [cl "payout_without_release" kind] else []) ++
@@ -314,7 +320,7 @@ Definition op_clauses (n : nat) (lg : log) (a0 pre post : state) (o : op) : list
           (* an accepted confirmation of a pending transfer: the password must be the one of the request
              (given as it is, or as its digest) *)
           let good := String.eqb p (t_pw tx) || String.eqb ph (t_pw tx) in
-          let lg1 := if good then mkLog (l_appr lg) (l_decl lg) ((t, h) :: l_conf lg) (l_rot lg) else lg in
+          let lg1 := if good then mkLog (l_appr lg) (l_decl lg) ((t, h) :: l_conf lg) (l_rot lg) (l_req lg) else lg in
           ((if good then [] else [cl3 "password" kind "wrong"]) ++
            (if paid_without_release pre post t h then [cl "payout_without_release" kind] else []) ++
            (match released pre post t h with
@@ -322,14 +328,17 @@ Definition op_clauses (n : nat) (lg : log) (a0 pre post : state) (o : op) : list
             | None => [] end), lg1)
       | None => (if state_eqb n pre post then [] else [cl3 "password" kind "no_transfer"], lg)
       end
-  | OSend s to amt _ _ _ =>
+  | OCreate sg _ _ =>
+      (* the owner redefined the settings: requirements recorded for its pending transfers follow the new ones *)
+      ([], mkLog (l_appr lg) (l_decl lg) (l_conf lg) (l_rot lg) (filter (fun e => negb (fst e =? sg)) (l_req lg)))
+  | OSend s to amt _ _ h =>
       let kind := "custody_send"%string in
       let S := getA pre s in
       if dec S (getA post s) then      (* paid out directly *)
         ((if guarded S && (0 <? n_cust S) then [cl3 "threshold" kind "direct"] else []) ++
          (if flag s_pwd S then [cl3 "password" kind "direct"] else []) ++
          wl_lim_clauses S to amt kind, lg)
-      else ([], lg)
+      else ([], if flag s_pwd S then mkLog (l_appr lg) (l_decl lg) (l_conf lg) (l_rot lg) ((s, h) :: l_req lg) else lg)
   | OBank s to amt _ =>
       (* the decorator's decision: against the state at the start of the transaction *)
       if dec (getA pre s) (getA post s) then (path_clauses (getA a0 s) to amt "bank_send", lg) else ([], lg)
@@ -347,7 +356,7 @@ Definition op_clauses (n : nat) (lg : log) (a0 pre post : state) (o : op) : list
         then [] else [cl "rotate" "custody_not_moved"]) ++
        (if forallb (fun d => (bal_get d (a_bal B') =? bal_get d (a_bal B) + bal_get d (a_bal A)) && (bal_get d (a_bal A') =? 0)) denoms
         then [] else [cl "rotate" "funds"]),
-       mkLog (ren3 a nw (l_appr lg)) (ren3 a nw (l_decl lg)) (ren2 a nw (l_conf lg)) (a :: nw :: l_rot lg))
+       mkLog (ren3 a nw (l_appr lg)) (ren3 a nw (l_decl lg)) (ren2 a nw (l_conf lg)) (a :: nw :: l_rot lg) (ren2 a nw (l_req lg)))
   | _ => ([], lg)
   end.
 
@@ -384,7 +393,7 @@ Fixpoint decode (n : nat) (s : state) (steps : list ostep) : trace :=
       end
   end.
 
-Definition no_log : log := mkLog [] [] [] [].
+Definition no_log : log := mkLog [] [] [] [] [].
 Definition case_clauses (c : c17_case) : list string :=
   match c with C17 bals steps =>
     let n := List.length bals in dedup (trace_clauses n no_log (-1) (init_state bals) (init_state bals) (decode n (init_state bals) steps)) end.
